@@ -193,18 +193,18 @@ theorem levels_content (C : Cfg σ κ ν) {cmp : κ → κ → Ordering} (hc : T
         = applyEdits cmp (nds.flatMap (flatten n)) es ∧
       ∀ c ∈ ((C n).incr (C n).fresh (regionsAt C cmp n nds es)).flatMap Out.chunks, WFNode n c ∧ c ≠ []
   | 0, nds, hne, hwf, hs, hok => by
-    have hold := leafRegions_old cmp nds es false
+    have hold := leafRegions_old cmp nds es false true
     have hflat0 : nds.flatMap (flatten 0) = (nds.flatten : List (κ × ν)) := flatMap_flatten0 nds
     have hs' : Sorted cmp (nds.flatten : List (κ × ν)) := by rw [← hflat0]; exact hs
-    have hclean := leafRegions_clean hc nds es false (fun l hl => sorted_of_mem_flatten _ l hl hs') hes
-    have hcontent := leafRegions_content hc nds es false hne (fun l hl => (hwf l hl).2) hs'
-    have hrne := leafRegions_ne_nil cmp nds es false hne
-    have hfl := (C 0).incr_flatten (leafRegions cmp nds es false) (C 0).fresh hrne hclean
-    have hokI : (C 0).incrOk (C 0).fresh (leafRegions cmp nds es false) = true := hok
+    have hclean := leafRegions_clean hc nds es false true (fun l hl => sorted_of_mem_flatten _ l hl hs') hes
+    have hcontent := leafRegions_content hc nds es false true hne (fun l hl => (hwf l hl).2) hs'
+    have hrne := leafRegions_ne_nil cmp nds es false true hne
+    have hfl := (C 0).incr_flatten (leafRegions cmp nds es false true) (C 0).fresh hrne hclean
+    have hokI : (C 0).incrOk (C 0).fresh (leafRegions cmp nds es false true) = true := hok
     refine ⟨hold, ?_, ?_⟩
     · have hchunks0 : ∀ (cs : List (NodeH κ ν 0)), cs.flatMap (flatten 0) = (cs.flatten : List (κ × ν)) :=
         flatMap_flatten0
-      show (((C 0).incr (C 0).fresh (leafRegions cmp nds es false)).flatMap Out.chunks).flatMap (flatten 0) = _
+      show (((C 0).incr (C 0).fresh (leafRegions cmp nds es false true)).flatMap Out.chunks).flatMap (flatten 0) = _
       rw [hchunks0, hflat0]
       have : ((C 0).fresh.cur : List (κ × ν)) = [] := rfl
       rw [this, List.nil_append] at hfl
@@ -239,20 +239,20 @@ theorem levels_content (C : Cfg σ κ ν) {cmp : κ → κ → Ordering} (hc : T
     have hchs : Sorted cmp ((children n nds).flatMap (flatten n)) := by rw [flatMap_children]; exact hs
     obtain ⟨hAn, hBn, hCn⟩ := levels_content C hc es hes n (children n nds) hchne hchwf hchs hokb.1
     have hregs : regionsAt C cmp (n+1) nds es
-        = regionsUp n nds ((C n).incr (C n).fresh (regionsAt C cmp n (children n nds) es)) := rfl
+        = regionsUp n nds ((C n).incr (C n).fresh (regionsAt C cmp n (children n nds) es)) true := rfl
     generalize hrs : regionsAt C cmp n (children n nds) es = rs at hAn hBn hCn hregs
     generalize houts : (C n).incr (C n).fresh rs = outs at hBn hCn hregs
     have hlen : nds.flatten.length ≤ outs.length := by
       have h1 : rs.length = (children n nds).length := by rw [← hAn, List.length_map]
       rw [← houts, (C n).incr_length, h1, children_eq, List.length_map]
       exact Nat.le_refl _
-    have hold' := regionsUp_old n nds outs
-    have hrne : regionsUp n nds outs ≠ [] := by
+    have hold' := regionsUp_old n nds outs true
+    have hrne : regionsUp n nds outs true ≠ [] := by
       intro h; rw [h] at hold'; exact hne hold'.symm
-    have hclean := regionsUp_clean n nds outs hlen
-    have hfl := (C (n+1)).incr_flatten (regionsUp n nds outs) (C (n+1)).fresh hrne hclean
+    have hclean := regionsUp_clean n nds outs true hlen
+    have hfl := (C (n+1)).incr_flatten (regionsUp n nds outs true) (C (n+1)).fresh hrne hclean
     have hcur : ((C (n+1)).fresh.cur : List (ItemH κ ν (n+1))) = [] := rfl
-    rw [hcur, List.nil_append, regionsUp_new n nds outs hlen] at hfl
+    rw [hcur, List.nil_append, regionsUp_new n nds outs true hlen] at hfl
     rw [hregs]
     refine ⟨hold', ?_, ?_⟩
     · rw [flatMap_flatten_succ, hfl]
@@ -265,7 +265,7 @@ theorem levels_content (C : Cfg σ κ ν) {cmp : κ → κ → Ordering} (hc : T
     · intro c hcm
       constructor
       · intro it hit
-        have hmem : it ∈ (((C (n+1)).incr (C (n+1)).fresh (regionsUp n nds outs)).flatMap Out.chunks).flatten :=
+        have hmem : it ∈ (((C (n+1)).incr (C (n+1)).fresh (regionsUp n nds outs true)).flatMap Out.chunks).flatten :=
           List.mem_flatten.mpr ⟨c, hcm, hit⟩
         rw [hfl] at hmem
         rcases mem_zip_slot n _ _ it hmem with h | ⟨c', hc', rfl⟩
@@ -317,7 +317,7 @@ theorem applyMutations_content_wf (C : Cfg σ κ ν) {cmp : κ → κ → Orderi
       have hempb : es.isEmpty = false := by cases es <;> simp_all
       have hr : ∃ r : Region (ItemH κ ν 0), regionsAt C cmp 0 [([] : NodeH κ ν 0)] es = [r] ∧ r.dirty = true ∧
           r.new = applyEdits cmp [] es :=
-        ⟨_, rfl, by show ((!false && !es.isEmpty) || _) = true; simp [hempb], rfl⟩
+        ⟨_, rfl, by show (((!false && !es.isEmpty) || _) || !true) = true; simp [hempb], rfl⟩
       obtain ⟨r, hr1, hr2, hr3⟩ := hr
       have hchunks : ((C 0).incr (C 0).fresh (regionsAt C cmp 0 [([] : NodeH κ ν 0)] es)).flatMap Out.chunks
           = (C 0).chunk r.new := by
@@ -402,7 +402,7 @@ theorem applyMutations_shape (C : Cfg σ κ ν) {cmp : κ → κ → Ordering} (
       subst hroot
       have hempb : es.isEmpty = false := by cases es <;> simp_all
       have hr : ∃ r : Region (ItemH κ ν 0), regionsAt C cmp 0 [([] : NodeH κ ν 0)] es = [r] ∧ r.dirty = true :=
-        ⟨_, rfl, by show ((!false && !es.isEmpty) || _) = true; simp [hempb]⟩
+        ⟨_, rfl, by show (((!false && !es.isEmpty) || _) || !true) = true; simp [hempb]⟩
       obtain ⟨r, hr1, hr2⟩ := hr
       have hchunks : ((C 0).incr (C 0).fresh (regionsAt C cmp 0 [([] : NodeH κ ν 0)] es)).flatMap Out.chunks
           = (C 0).chunk r.new := by
